@@ -48,7 +48,11 @@ ov="${VERIF_COOP_OVERLAY:-$VERIF_ROOT/build/overlay-coop.json}"
   echo '{"Replace":{'
   first=1
   emit() { [ $first = 1 ] || echo ','; first=0; printf '"%s":"%s"' "$1" "$2"; }
-  for f in $(cd overlay && find . -name '*.go' | sort); do f="${f#./}"; emit "/repo/$f" "$VERIF_ROOT/overlay/$f"; done
+  for f in $(cd overlay && find . -name '*.go' | sort); do
+    f="${f#./}"
+    if [ -n "${VERIF_CHECK:-}" ] && ! grep -q "^// verif:checks .*\b${VERIF_CHECK}\b" "$VERIF_ROOT/overlay/$f"; then continue; fi
+    emit "/repo/$f" "$VERIF_ROOT/overlay/$f"
+  done
   if [ -n "${VERIF_EXTRA_OVERLAY:-}" ]; then
     for f in $(cd "$VERIF_EXTRA_OVERLAY" && find . -type f -name '*.go' | sort); do
       f="${f#./}"; d="$(dirname "$f")"; b="$(basename "$f")"; [ "$d" = "." ] && rd=root || rd="$d"
